@@ -630,24 +630,36 @@ def stationarity(chk, ctx, rng, n_cases):
         g = G / nu
         h = [0.2, 0.5, 0.8][it % 3]
         n = 10
-        ch = []
-        for pts in (60, 120, 240):
-            xx = dadi.Numerics.default_grid(pts)
-            phi = dadi.PhiManip.phi_1D(xx, nu=nu, gamma=g, h=h)
-            fs0 = np.asarray(dadi.Spectrum.from_phi(phi, (n,), (xx,)))[1:-1]
-            phi2 = I.one_pop(phi, xx, 0.3 * nu, nu, gamma=g, h=h)
-            fs1 = np.asarray(dadi.Spectrum.from_phi(phi2, (n,), (xx,)))[1:-1]
-            big = fs0 >= 1e-6 * fs0.max()
-            ch.append(float(np.max(np.abs(fs1 - fs0)[big] / fs0[big])))
-        chk.l3(('stationary', it % 5, it % 3))
-        inp = dict(nu=nu, gamma=g, h=h, changes=ch)
-        # the change is grid error: it must shrink ~4x per doubling (order 2) and be small on the finest grid
-        r1 = ch[0] / ch[1] if ch[1] > 0 else float('inf'); r2 = ch[1] / ch[2] if ch[2] > 0 else float('inf')
-        ratios.append((round(r1, 2), round(r2, 2)))
-        if ch[2] > 1e-9 and not (2.5 <= r2 <= 6.5):
-            chk.fail('stationarity:order', 'change of the equilibrium spectrum under further integration does not vanish like a grid error: %.3g, %.3g, %.3g at pts=60,120,240 (nu=%.3g gamma=%.3g h=%.2g)' % (ch[0], ch[1], ch[2], nu, g, h), inp)
-        if ch[2] > 0.15:
-            chk.fail('stationarity:size', 'equilibrium spectrum changes by %.1f%% under further integration even at pts=240' % (100 * ch[2]), inp)
+        # both settings of the Chang-Cooper option `Integration.use_delj_trick` (a configuration of the same integrator: the
+        # equilibrium must be stationary under either; on the unchanged tree the option keeps ratios ~4 and <= 1.5 % at pts=240)
+        for use_delj in (False, True):
+            ch = []
+            old_delj = I.use_delj_trick; I.use_delj_trick = use_delj
+            try:
+                for pts in (60, 120, 240):
+                    xx = dadi.Numerics.default_grid(pts)
+                    phi = dadi.PhiManip.phi_1D(xx, nu=nu, gamma=g, h=h)
+                    fs0 = np.asarray(dadi.Spectrum.from_phi(phi, (n,), (xx,)))[1:-1]
+                    phi2 = I.one_pop(phi, xx, 0.3 * nu, nu, gamma=g, h=h)
+                    fs1 = np.asarray(dadi.Spectrum.from_phi(phi2, (n,), (xx,)))[1:-1]
+                    big = fs0 >= 1e-6 * fs0.max()
+                    ch.append(float(np.max(np.abs(fs1 - fs0)[big] / fs0[big])) if np.all(np.isfinite(fs1)) else float('inf'))
+            finally:
+                I.use_delj_trick = old_delj
+            tag = ':delj' if use_delj else ''
+            chk.l3(('stationary', it % 5, it % 3, use_delj))
+            inp = dict(nu=nu, gamma=g, h=h, changes=ch, use_delj_trick=use_delj)
+            # the change is grid error: it must shrink ~4x per doubling (order 2) and be small on the finest grid
+            r1 = ch[0] / ch[1] if ch[1] > 0 else float('inf'); r2 = ch[1] / ch[2] if ch[2] > 0 else float('inf')
+            ratios.append((round(r1, 2), round(r2, 2)))
+            if ch[2] > 1e-9 and not (2.5 <= r2 <= 6.5):
+                chk.fail('stationarity:order' + tag, 'change of the equilibrium spectrum under further integration does not vanish like a grid error: %.3g, %.3g, %.3g at pts=60,120,240 (nu=%.3g gamma=%.3g h=%.2g use_delj_trick=%s)' % (ch[0], ch[1], ch[2], nu, g, h, use_delj), inp)
+            # the coarsest grid of the three is already in the asymptotic range on the unchanged tree (ratio 2.9-5.5 and change <= 59 % over
+            # 360 draws x both options): an instability that only shows on the coarse grid must not hide behind the two finer ones
+            if ch[1] > 1e-9 and not (2.0 <= r1 <= 8.0) or not (ch[0] <= 2.0):
+                chk.fail('stationarity:coarse' + tag, 'change of the equilibrium spectrum under further integration at pts=60 is not grid error of the same order as at pts=120,240: %.3g, %.3g, %.3g (nu=%.3g gamma=%.3g h=%.2g use_delj_trick=%s)' % (ch[0], ch[1], ch[2], nu, g, h, use_delj), inp)
+            if ch[2] > 0.15:
+                chk.fail('stationarity:size' + tag, 'equilibrium spectrum changes by %.1f%% under further integration even at pts=240 (use_delj_trick=%s)' % (100 * ch[2], use_delj), inp)
     chk.stats['stationarity_refinement_ratios'] = ratios
 
 def run(chk, ctx):
